@@ -174,11 +174,24 @@ func c13marshal(rows []c13row) string {
 
 // independent decoding of a single-word encoding valid for n <= 64 actions; ok=false if not such an encoding
 func c13decode(enc string, n int) (uint64, bool) {
-	if enc == "" || len(enc) > 16 {
+	if n > 64 || !c13decodable(enc, n) {
+		return 0, false
+	}
+	v, _ := c13word(enc)
+	if n < 64 {
+		v &= (uint64(1) << uint(n)) - 1 // Decode zeroes the bits beyond the archive's size
+	}
+	return v, true
+}
+
+// one entry of an encoding as BooleanArchive.Decode reads it: non-empty, hexadecimal digits only, value below 2^64
+// (written out here, independently of strconv.ParseUint)
+func c13word(w string) (uint64, bool) {
+	if w == "" {
 		return 0, false
 	}
 	var v uint64
-	for _, c := range enc {
+	for _, c := range w {
 		var d uint64
 		switch {
 		case c >= '0' && c <= '9':
@@ -190,12 +203,26 @@ func c13decode(enc string, n int) (uint64, bool) {
 		default:
 			return 0, false
 		}
+		if v >= 1<<60 {
+			return 0, false
+		}
 		v = v*16 + d
 	}
-	if n < 64 && v >= (uint64(1)<<uint(n)) {
-		return 0, false
-	}
 	return v, true
+}
+
+// does the Actions text decode into an archive for n management actions: ceil(n/64) entries between ':', each a word
+func c13decodable(enc string, n int) bool {
+	words := strings.Split(enc, ":")
+	if len(words) != (n+63)/64 {
+		return false
+	}
+	for _, w := range words {
+		if _, ok := c13word(w); !ok {
+			return false
+		}
+	}
+	return true
 }
 
 func c13attr(m map[string]interface{}, name string) (interface{}, bool) {
@@ -318,7 +345,7 @@ func c13e2eText(pre [][]c13row, text string, rows []c13row, class string, inQuan
 	nActions := len(ref.ManagementActions())
 
 	records, readErr := c20reader(text)
-	cj := J{"kind": "e2e", "class": class, "text": c20hex(text), "nrows": len(rows)}
+	cj := J{"kind": "e2e", "class": class, "text": c20hex(text), "nrows": len(rows), "nw": (nActions + 63) / 64}
 	if readErr != nil || len(records) != len(rows)+1 {
 		// the marshalled text is not read back as one record per row: outside the model (fields not csv-safe)
 		cj["csv"] = nil
@@ -390,17 +417,25 @@ func c13e2eText(pre [][]c13row, text string, rows []c13row, class string, inQuan
 	c13stats["post_"+fmt.Sprint(cj["post"])]++
 	if post.panicked && inQuantifier {
 		c13oracle("POST /solutions panicked on a marshalled summary", J{"text": text, "panic": post.what, "class": class})
-	} else if !post.panicked && post.status != http.StatusOK {
-		culprit := ""
-		for _, r := range rows[1:] {
-			if f, err := strconv.ParseFloat(r.enc, 64); err == nil && math.Abs(f) >= 1e6 && culprit == "" {
-				culprit = r.enc
+	} else if !post.panicked {
+		// since 7ecfa2c every Actions cell (the As-Is row's too) must decode for the scenario's action count
+		undecodable := ""
+		hasUndecodable := false
+		for _, r := range rows {
+			if !c13decodable(r.enc, nActions) && !hasUndecodable {
+				undecodable, hasUndecodable = r.enc, true
 			}
 		}
-		if inQuantifier {
+		if post.status != http.StatusOK && inQuantifier && !hasUndecodable {
 			c13oracle("summary written by the explorer (marshaller / saver) is rejected by POST /solutions",
-				J{"encoding": culprit, "encoding_class": c13encClass(culprit), "status": post.status, "response": post.body, "class": class,
-					"summary_text": text})
+				J{"status": post.status, "response": post.body, "class": class, "summary_text": text})
+		}
+		if post.status == http.StatusOK && hasUndecodable {
+			c13oracle("summary with an Actions cell that does not decode for the scenario's action count is accepted by POST /solutions",
+				J{"encoding": undecodable, "encoding_class": c13encClass(undecodable), "status": post.status, "class": class, "summary_text": text})
+		}
+		if hasUndecodable {
+			c13stats["post_with_undecodable_row"]++
 		}
 	}
 
@@ -809,7 +844,8 @@ func runC13(args []string) {
 	if tier == "thorough" {
 		nSynth = 300
 	}
-	synthEnc := func() string {
+	// texts over [0-9A-F:] that decode for the scenario (one word of at most 64 bits; bits beyond the actions are dropped) ...
+	synthDecodable := func() string {
 		switch rng.intn(8) {
 		case 0:
 			return strconv.Itoa(1000000 + rng.intn(9000000))
@@ -818,26 +854,57 @@ func runC13(args []string) {
 		case 2:
 			return "F"
 		case 3:
-			return strings.ToUpper(strconv.FormatUint(rng.next(), 16)) + ":" + strings.ToUpper(strconv.FormatUint(rng.next()>>uint(rng.intn(64)), 16))
+			return strings.Repeat("0", rng.intn(20)) + strings.ToUpper(strconv.FormatUint(rng.next()>>uint(rng.intn(64)), 16))
 		case 4:
 			return strconv.Itoa(rng.intn(999999))
 		case 5:
-			return []string{"0012", "00", "0F", "1E309", "1E99999", "9007199254740993", "12345678901234567890", ":", "1:", "FFFFFFFFFFFFFFFFF", "E", "1E", "E1"}[rng.intn(13)]
+			return []string{"0012", "00", "0F", "1E309", "1E99999", "9007199254740993", "FFFFFFFFFFFFFFFF", "E", "1E", "E1", "FFFF", "2000", "0000000000000000000001"}[rng.intn(13)]
 		default:
 			return strings.ToUpper(strconv.FormatUint(rng.next()>>uint(rng.intn(64)), 16))
 		}
 	}
+	// ... and texts over [0-9A-F:] that do not (wrong number of words, an empty word, a word beyond 64 bits)
+	synthUndecodable := func() string {
+		switch rng.intn(4) {
+		case 0:
+			return strings.ToUpper(strconv.FormatUint(rng.next(), 16)) + ":" + strings.ToUpper(strconv.FormatUint(rng.next()>>uint(rng.intn(64)), 16))
+		case 1:
+			return []string{":", "1:", ":1", "", "0:0", "1E3:F", "::"}[rng.intn(7)]
+		case 2:
+			return "1" + strings.ToUpper(strconv.FormatUint(rng.next()|(1<<63), 16)) // 17 digits
+		default:
+			return []string{"FFFFFFFFFFFFFFFFF", "12345678901234567890", "10000000000000000"}[rng.intn(3)]
+		}
+	}
+	for _, u := range []string{"1:", ":", "", "0:0", "FFFFFFFFFFFFFFFFF"} { // the shapes that were accepted before 7ecfa2c
+		c13e2e(nil, []c13row{asRow, {label: "1-of-1", enc: u, note: "Pareto front member 1 of 1", vars: asVars, realBits: -1}}, "synthetic_undecodable_row", true)
+	}
+	{
+		bad := asRow
+		bad.enc = "0:0"
+		c13e2e(nil, []c13row{bad, realRow(1, 1, 3)}, "synthetic_undecodable_row", true)
+	}
 	for i := 0; i < nSynth; i++ {
 		n := 1 + rng.intn(5)
 		rows := []c13row{asRow}
+		undecodableAt := -1
+		class := "synthetic_rows"
+		if rng.chance(0.25) {
+			undecodableAt = 1 + rng.intn(n)
+			class = "synthetic_undecodable_row"
+		}
 		for k := 1; k <= n; k++ {
 			vs := make(solution.VariableSetSummary, len(asVars))
 			for vi, v := range asVars {
 				vs[vi] = solution.VariableSummary{Name: v.Name, Value: math.Round(rng.float()*2e6) / 1000}
 			}
-			rows = append(rows, c13row{label: fmt.Sprintf("%d-of-%d", k, n), enc: synthEnc(), note: fmt.Sprintf("Pareto front member %d of %d", k, n), vars: vs, realBits: -1})
+			enc := synthDecodable()
+			if k == undecodableAt {
+				enc = synthUndecodable()
+			}
+			rows = append(rows, c13row{label: fmt.Sprintf("%d-of-%d", k, n), enc: enc, note: fmt.Sprintf("Pareto front member %d of %d", k, n), vars: vs, realBits: -1})
 		}
-		c13e2e(nil, rows, "synthetic_rows", true)
+		c13e2e(nil, rows, class, true)
 	}
 	// (d) malformed relatives (outside the property's quantifier; they validate the model's 400 / Panic outcomes)
 	{
